@@ -250,12 +250,15 @@ def dict_to_hooks(d):
 def gen_a(rng, dname=None, full=None):
     if full is not None:
         return full
-    return {"dict": dname or rng.choice(list(DICTS)), "userVRO": rng.random() < 0.08,
-            "keep": rng.random() < 0.4, "exact": rng.random() < 0.4,
-            "tags": rng.choice(A_TAGS), "postTags": rng.choice(A_POST), "versionName": rng.random() < 0.5,
-            "productDir": rng.choice([None, None, None, "/some/dir", "none"]),
-            "dbz": rng.choice([None, None, "stack0", "elsewhere"]), "inexact": rng.random() < 0.25,
-            "cli": rng.random() < 0.25}
+    c = {"dict": dname or rng.choice(list(DICTS)), "userVRO": rng.random() < 0.08,
+         "keep": rng.random() < 0.4, "exact": rng.random() < 0.4,
+         "tags": rng.choice(A_TAGS), "postTags": rng.choice(A_POST), "versionName": rng.random() < 0.5,
+         "productDir": rng.choice([None, None, None, "/some/dir", "none"]),
+         "dbz": rng.choice([None, None, "stack0", "elsewhere"]), "inexact": rng.random() < 0.25,
+         "cli": rng.random() < 0.4}
+    if c["cli"]:            # `eups vro` has neither --keep nor --inexact
+        c["keep"] = c["inexact"] = c["userVRO"] = False
+    return c
 
 
 def all_default_a():
@@ -778,6 +781,165 @@ def eval_c(ctx, cases):
             ctx.fail(clause, inp, io_, mo, note=detail)
 
 
+
+# ---- stream D: dependencies named in a table file (table.py glue + depth 1) ---------------------------------
+
+def gen_d(rng):
+    world = gen_world(rng, ["p"])
+    have = sorted({d[1] for st in world["stacks"] for d in st["decls"]})
+    r = rng.random()
+    vexpr = None
+    if r < 0.2:
+        version = None
+    elif r < 0.6 and have:
+        version = rng.choice(have)
+    elif r < 0.7:
+        version = "9.9"
+    elif r < 0.9:
+        version = rng.choice(EXPRS)
+    else:
+        version = rng.choice(have or ["1.0"])
+        vexpr = rng.choice(EXPRS)
+    r = rng.random()
+    line = {"tags": [], "vro": None, "keep": False}
+    if r < 0.15:
+        line["tags"] = [rng.choice(["beta", "stable", "t"])]
+    elif r < 0.25:
+        line["vro"] = rng.choice(["current", "version", "version!", "latest", "versionExpr"])
+    elif r < 0.3:
+        line["keep"] = True
+    return {"world": world, "version": version, "vexpr": vexpr, "optional": rng.random() < 0.4, "line": line,
+            "keep": rng.random() < 0.25, "tags": rng.choice([[], [], ["beta"], ["stable"], ["stable", "beta"], ["t"]]),
+            "postTags": rng.choice([[], [], ["stable"], ["beta"]])}
+
+
+def d_table_line(c):
+    words = ["p"]
+    for t in c["line"]["tags"]:
+        words += ["-t", t]
+    if c["line"]["vro"]:
+        words += ["--vro", c["line"]["vro"]]
+    if c["line"]["keep"]:
+        words += ["-k"]
+    if c["version"] is not None:
+        words.append(c["version"] if " " not in c["version"] or c["vexpr"] else c["version"])
+    if c["vexpr"]:
+        words.append("[%s]" % c["vexpr"])
+    return "%s(%s)\n" % ("setupOptional" if c["optional"] else "setupRequired", " ".join(words))
+
+
+def d_child(stacks, c):
+    _quiet()
+    try:
+        E = common.new_eups(readCache=False, keep=c["keep"])
+        E.selectVRO(c["tags"] or None, None, None, None, postTag=c["postTags"] or None)
+        vro = list(E.getVRO())
+        try:
+            ok, ver, why = E.setup("top")
+        except Exception as e:  # noqa
+            return {"out": "ok", "vro": vro, "top": "raised", "p": None}
+        env = os.environ.get("SETUP_P")
+        hit = None
+        if env:
+            f = env.split()
+            root = f[f.index("-Z") + 1]
+            hit = {"version": f[1], "flavor": f[f.index("-f") + 1], "stack": stacks.index(root) if root in stacks else -1}
+        return {"out": "ok", "vro": vro, "top": bool(ok), "p": hit}
+    except Exception as e:  # noqa
+        return {"out": "err", "err": err_enum(e)}
+
+
+def d_impl_item(c):
+    root = common.scratch("c03d")
+    try:
+        stacks = write_world(root, c["world"])
+        pdir = os.path.join(root, "prod", "top")
+        os.makedirs(os.path.join(pdir, "ups"))
+        with open(os.path.join(pdir, "ups", "top.table"), "w") as f:
+            f.write(d_table_line(c))
+        d = os.path.join(stacks[0], "ups_db", "top")
+        os.makedirs(d)
+        with open(os.path.join(d, "1.0.version"), "w") as fd:
+            fd.write("FILE = version\nPRODUCT = top\nVERSION = 1.0\nGroup:\n   FLAVOR = %s\n   QUALIFIERS = \"\"\n"
+                     "   PROD_DIR = %s\n   UPS_DIR = ups\n   TABLE_FILE = top.table\nEnd:\n" % (NATIVE, pdir))
+        with open(os.path.join(d, "current.chain"), "w") as fd:
+            fd.write("FILE = version\nPRODUCT = top\nCHAIN = current\n#Group:\n   FLAVOR = %s\n   VERSION = 1.0\n"
+                     "   QUALIFIERS = \"\"\n#End:\n" % NATIVE)
+        r = common.in_child(d_child, stacks, c)
+        return r[1] if r[0] == "ok" else {"child": list(r[:4])}
+    finally:
+        common.rmtree(root)
+
+
+def d_sel_req(c):
+    return {"m": "c03", "op": "selectVRO",
+            "cfg": {"vroDict": DEFAULT_DICT, "userVRO": False, "keep": c["keep"], "exact": False,
+                    "globalTags": GLOBAL_TAGS, "cmdTags": [], "prevPreferred": PREV_PREFERRED},
+            "args": {"tags": c["tags"], "productDir": False, "versionName": False, "dbz": None,
+                     "inexact": False, "postTags": c["postTags"]}}
+
+
+def version_for_setup(c):
+    """What table.py hands to Eups.setup as `vers`: the words behind the product, `[expr]` split off."""
+    return c["version"]
+
+
+def d_oracle(c, out):
+    """-t on the command line overrides the version a table names; -T does not; a named version that is not
+    declared fails.  Only for lines without options of their own and without --keep (the property's setting)."""
+    if out.get("out") != "ok" or c["vexpr"] or c["keep"] or c["line"]["tags"] or c["line"]["vro"] or c["line"]["keep"]:
+        return
+    cc = {"world": c["world"], "name": "p", "version": c["version"], "depth": 1, "tags": c["tags"],
+          "postTags": c["postTags"], "already": None}
+    sub = {"out": "ok", "vro": out["vro"], "hit": out["p"]}
+    if out["top"] == "raised":
+        if c["optional"]:
+            yield ("optional_dependency_does_not_fail", "setup of top raised")
+        sub["hit"] = None
+    for clause, detail in c_oracle(cc, sub):
+        yield (clause, detail)
+    if out["top"] is True and not c["optional"] and out["p"] is None:
+        yield ("required_dependency", "top was set up without its required dependency p")
+
+
+def eval_d(ctx, cases):
+    impl = parallel_map(d_impl_item, cases, workers=6)
+    sels = ctx.lean.ask_many([d_sel_req(c) for c in cases])
+    lines = ctx.lean.ask_many([{"m": "c03", "op": "tableLineVro", "vro": s.get("vro", []),
+                                "lineVro": c["line"]["vro"].split() if c["line"]["vro"] else None,
+                                "lineTags": c["line"]["tags"], "lineKeep": c["line"]["keep"]} for c, s in zip(cases, sels)])
+    reqs = []
+    for c, ln in zip(cases, lines):
+        reqs.append({"m": "c03", "op": "resolve", "db": c["world"]["stacks"], "mode": "files", "native": NATIVE,
+                     "accepted": [False] * len(c["world"]["stacks"]), "globalTags": GLOBAL_TAGS, "vro": ln["vro"],
+                     "keep": c["keep"], "flavors": FLAVS,
+                     "req": {"name": "p", "version": c["version"], "vexpr": c["vexpr"], "depth": 1, "flavor": NATIVE,
+                             "ignore": False, "already": None}})
+    answers = ctx.lean.ask_many(reqs)
+    for c, io_, s, ans in zip(cases, impl, sels, answers):
+        inp = dict(c, stream="D")
+        if "child" in io_:
+            raise common.InfraError("table child failed: %r" % (io_,))
+        m = canon_model_hit(ans)
+        if s.get("out") != "ok" or m["out"] == "bad-op":
+            mo = {"out": "err", "err": s.get("err", m.get("err"))}
+        else:
+            hit = m.get("hit") if m["out"] == "ok" else None      # an error inside the dependency's setup counts as "not found"
+            if hit:
+                hit = {k: hit[k] for k in ("version", "flavor", "stack")}
+            top = True if (hit or c["optional"]) else "raised"
+            mo = {"out": "ok", "vro": s["vro"], "top": top, "p": hit if top is True else None}
+        ctx.case(key=inp, nontrivial=world_has(c["world"], "p", NATIVE) or world_has(c["world"], "p", "generic"),
+                 sample={"input": {k: c[k] for k in c if k != "world"}, "impl": io_} if ctx.evaluations % 499 == 0 else None)
+        ctx.hist("D:line=%s" % ("-t" if c["line"]["tags"] else "--vro" if c["line"]["vro"] else "-k" if c["line"]["keep"] else "plain"))
+        ctx.hist("D:result=%s" % (io_.get("err") if io_["out"] != "ok" else "raised" if io_["top"] == "raised" else
+                                  "p-absent" if io_["p"] is None else io_["p"]["flavor"]))
+        if mo != io_:
+            ctx.disagree("table_dependency", inp, io_, mo)
+        for clause, detail in d_oracle(c, io_):
+            ctx.fail(clause, inp, io_, mo, note=detail)
+
+
 # ---- the local order against the real one --------------------------------------------------------------
 
 def check_order(ctx):
@@ -848,6 +1010,9 @@ def run_inputs(ctx, inputs):
     cs = [{k: v for k, v in c.items() if k not in ("stream", "_corpus")} for c in inputs if c["stream"] == "C"]
     if cs:
         eval_c(ctx, cs)
+    ds = [{k: v for k, v in c.items() if k not in ("stream", "_corpus")} for c in inputs if c["stream"] == "D"]
+    if ds:
+        eval_d(ctx, ds)
 
 
 def run(ctx):
@@ -872,6 +1037,12 @@ def run(ctx):
     while done < nc and not ctx.out_of_time():
         k = min(600, nc - done)
         eval_c(ctx, [gen_c(ctx.rng) for _ in range(k)])
+        done += k
+    nd = ctx.n(400, 15000)
+    done = 0
+    while done < nd and not ctx.out_of_time():
+        k = min(600, nd - done)
+        eval_d(ctx, [gen_d(ctx.rng) for _ in range(k)])
         done += k
     if ctx.evaluations and ctx.distinct_nontrivial < ctx.evaluations * 0.3:
         raise common.InfraError("degenerate distribution: %d non-trivial of %d" % (ctx.distinct_nontrivial, ctx.evaluations))
